@@ -110,6 +110,13 @@ func c16Inputs(thorough bool) []c16case {
 	add("asa-raw-unused", "ASA", core.Files{Main: asaIntf}, core.Files{Main: "access-list inside_in extended permit ip host 10.1.1.1 any4\naccess-group inside_in in interface inside\n",
 		V6:  "access-list inside_in extended permit ip host 1000::1 any6\naccess-list inside_in extended deny ip any6 any6\naccess-group inside_in in interface inside\n",
 		Raw: "object-group network u1\n network-object host 10.1.1.1\nobject-group network u2\n network-object host 10.1.1.2\nobject-group network u3\n network-object host 10.1.1.3\naccess-list unb1 extended permit ip any4 any4\naccess-list unb2 extended permit ip any4 any4\n"})
+	// ASA / IOS: unused raw objects that share one name across command types
+	add("asa-raw-unused-same-name", "ASA", core.Files{Main: asaIntf}, core.Files{Main: "access-list inside_in extended permit ip host 10.1.1.1 any4\naccess-group inside_in in interface inside\n",
+		Raw: "object-group network VPN1\n network-object host 10.1.1.1\naccess-list VPN1 extended permit ip any4 any4\ngroup-policy VPN1 internal\ngroup-policy VPN1 attributes\n banner value x\n" +
+			"object-group network VPN2\n network-object host 10.1.1.2\naccess-list VPN2 extended permit ip any4 any4\n"})
+	add("ios-raw-unused-same-name", "IOS", core.Files{Main: iosIntf("Ethernet0", "10.0.0.1")},
+		core.Files{Main: iosACLBody("inside_in", []int{0, 3}, c02Lines, false) + iosIntf("Ethernet0", "10.0.0.1", "ip access-group inside_in in"),
+			Raw: "ip access-list extended X1\n permit ip any any\nip access-list extended X2\n permit ip any any\ncrypto map X1 10 ipsec-isakmp\n set peer 10.1.1.1\n"})
 	// NSX: identical groups on the device
 	ng := nsxGroupSpace("groups", 3)
 	for i := int64(0); i < ng.n; i++ {
@@ -158,6 +165,48 @@ func c16Inputs(thorough bool) []c16case {
 		d3 := panVsysT{name: "vsys1", rules: []panRuleT{r1}, sgroup: map[string][]string{"sg7": {"tcp 80", "udp 53"}, "sg8": {"tcp 80", "udp 53"}, "sg9": {"tcp 80", "udp 53"}}}
 		t3 := panVsysT{name: "vsys1", rules: []panRuleT{r1, r3}, sgroup: map[string][]string{"sg1": {"tcp 80", "udp 53"}}}
 		add("panos-identical-service-groups", "PAN-OS", core.Files{Main: panConfig(d3)}, core.Files{Main: panConfig(t3)})
+	}
+	// every k-th case of the structured planner spaces (thorough: smaller k)
+	stride := func(q, t int64) int64 {
+		if thorough {
+			return t
+		}
+		return q
+	}
+	vp := asaVPNSpace()
+	for i := int64(3); i < vp.n; i += stride(211, 53) {
+		a, b := vp.gen(i)
+		add(fmt.Sprintf("asa-vpn:%d", i), "ASA", a, b)
+	}
+	ntg := nsxTwoGroupSpace("two-groups", nil)
+	for i := int64(1); i < ntg.n; i += stride(61, 13) {
+		a, b := ntg.gen(i)
+		add(fmt.Sprintf("nsx-two-groups:%d", i), "NSX", core.Files{Main: a}, b)
+	}
+	ncl := nsxClashSpace()
+	for i := int64(0); i < ncl.n; i += stride(7, 2) {
+		a, b := ncl.gen(i)
+		add(fmt.Sprintf("nsx-clash:%d", i), "NSX", core.Files{Main: a}, b)
+	}
+	ptg := panTwoGroupSpace()
+	for i := int64(1); i < ptg.n; i += stride(61, 13) {
+		a, b := ptg.gen(i)
+		add(fmt.Sprintf("panos-two-groups:%d", i), "PAN-OS", core.Files{Main: a}, b)
+	}
+	psh := panSharedSpace()
+	for i := int64(2); i < psh.n; i += stride(211, 53) {
+		a, b := psh.gen(i)
+		add(fmt.Sprintf("panos-shared:%d", i), "PAN-OS", core.Files{Main: a}, b)
+	}
+	lr := linuxRouteSpace()
+	for i := int64(5); i < lr.n; i += stride(257, 67) {
+		a, b := lr.gen(i)
+		add(fmt.Sprintf("linux-routes:%d", i), "Linux", core.Files{Main: a}, b)
+	}
+	iv := iosVRFIntfSpace()
+	for i := int64(1); i < iv.n; i += stride(13, 3) {
+		a, b := iv.gen(i)
+		add(fmt.Sprintf("ios-vrf-intf:%d", i), "IOS", a, b)
 	}
 	return l
 }
